@@ -511,7 +511,53 @@ fn c01(cases: &mut u64) -> Option<String> {
 /// C07: only "expired before the start" can be scheduled through the public API (the algorithms
 /// read the clock themselves; there is no injectable clock), so mid-run expiry is not covered here.
 fn c07(cases: &mut u64) -> Option<String> {
-    raw_modes("C07", 6, true, cases)
+    if let Some(w) = raw_modes("C07", 6, true, cases) {
+        return Some(w);
+    }
+    c07_builder_plumbing(cases)
+}
+
+/// "deadlines ... configured on the text-diff builder ... reach the algorithm": with an already expired deadline the
+/// builder must return exactly what capture_diff_slices_deadline returns for the same token slices, below and above
+/// the size (100 tokens per side) at which the builder switches to integer-mapped items.
+fn c07_builder_plumbing(cases: &mut u64) -> Option<String> {
+    for &n in &[6usize, 40, 150, 260] {
+        for variant in 0..3usize {
+            let old: Vec<String> = (0..n).map(|i| format!("t{}", (i * 7 + variant) % 23)).collect();
+            let mut new: Vec<String> = old.clone();
+            // a handful of scattered changes so that the expired-deadline fallback differs from a full diff
+            for k in 0..(n / 5 + 1) {
+                let at = (k * 5 + variant) % n;
+                new[at] = format!("x{}", k);
+            }
+            if variant == 1 { new.insert(n / 2, "ins".to_string()); }
+            if variant == 2 { new.remove(n / 3); }
+            let o: Vec<&str> = old.iter().map(|x| x.as_str()).collect();
+            let nw: Vec<&str> = new.iter().map(|x| x.as_str()).collect();
+            for alg in [Algorithm::Myers, Algorithm::Patience, Algorithm::Lcs] {
+                *cases += 1;
+                let past = expired_deadline();
+                let via_builder = guard(|| {
+                    let mut cfg = TextDiff::configure();
+                    cfg.algorithm(alg).deadline(past);
+                    cfg.diff_slices(&o, &nw).ops().to_vec()
+                });
+                let direct = guard(|| similar::capture_diff_slices_deadline(alg, &o, &nw, Some(past)));
+                match (via_builder, direct) {
+                    (Ok(a), Ok(b)) => {
+                        if a != b {
+                            return Some(format!(
+                                "C07 builder plumbing: alg={:?} tokens={} variant={}: TextDiffConfig::deadline(expired).diff_slices gives {} ops, capture_diff_slices_deadline(expired) gives {} ops (deadline not forwarded); first builder ops {:?}",
+                                alg, n, variant, a.len(), b.len(), &a[..a.len().min(3)]
+                            ));
+                        }
+                    }
+                    (Err(e), _) | (_, Err(e)) => return Some(format!("C07 builder plumbing: alg={:?} tokens={}: panic {}", alg, n, e)),
+                }
+            }
+        }
+    }
+    None
 }
 
 // ---------------------------------------------------------------------------------------------
